@@ -639,10 +639,16 @@ def guards_of(conds):
     `any` (the variant is then taken to be reachable in every environment)."""
     import re
     out = []
+    maps = set(MAP_PARAMS) | {"component_counts"}
     for _, src, val in conds:
-        m = re.fullmatch(r"len\((\w+)\.values\(\)\) == 0", src)
-        if m:
+        m = re.fullmatch(r"len\((\w+)(?:\.values\(\)|\.keys\(\)|\.items\(\))?\) == 0", src) or re.fullmatch(r"not (\w+)", src)
+        if m and (m.group(1) in maps or ".values()" in src):
             out.append(("mapEmpty" if val else "mapNonEmpty", m.group(1)))
+            continue
+        # truthiness of a mapping argument (None and {} are both "empty" in the model), len(M) > 0 / != 0
+        m = re.fullmatch(r"(\w+)", src) or re.fullmatch(r"len\((\w+)(?:\.values\(\)|\.keys\(\)|\.items\(\))?\) (?:>|!=) 0", src)
+        if m and m.group(1) in maps:
+            out.append(("mapNonEmpty" if val else "mapEmpty", m.group(1)))
     return out
 
 
